@@ -57,7 +57,7 @@ MANIFEST = dict(
     category="proof",
     text="partial. Coq theorems (props/C02.v, 25, all closed under the global context) about the reference evaluator Lang.eval — a big-step semantics of the core sequential language written from docs/spec.md, structurally recursive on the AST with fuel consumed only by function calls and imports: eval_fuel_mono / eval_program_fuel_mono / fuel_mono_all_judgements / eval_deterministic (a finished result is stable under more fuel: the semantics is a partial function), chain_infallible, sequence_short_circuit, branch_fallthrough, consequence_commits, match_verdict (Ok/[]; on success the scope grows by the pattern's bindings, on failure by its binders all nil), match_binds_only_binders, pmatch_extends, bare_binder_always_succeeds, block_scoping, closure_captures_by_value; and normalize_preserves_eval (+ splice_noop, lift_noop, normalize_preserves_value, normalize_preserves_termination, call_import_norm): simplify.rs's normalize_blocks with the compiler's options, modelled in lang/LangSimplify.v, preserves the outcome of every program at every fuel, up to the event counters and to normalising the bodies of function values in the result. A compiler-correctness slice (compile_simulates, compile_block_simulates, call_simulates, compile_program_correct, normalize_then_compile_correct; lang/LangCompile*.v) proves that the mirrored code generation simulates the evaluator on the VM model vm/Vm.v (C07's, lock-stepped against executor.rs there) for a fragment: integer literals, tuples without spreads, positional access, bare binders, integer-literal matches, chains, sequences, and blocks with any number of branches (condition with or without `=>` consequence, fall-through, Store/Load of the block input, Reset at branch and block exit), and non-capturing functions with a non-nil parameter bound by `f = #T { body }` (IFunction) and called `arg f` (ILoad; ICall; callee frame with its own locals; frame pop) to any call depth — call_simulates, by induction on the evaluator's fuel, discharges the call premise of compile_simulates. At IEqual the VM model takes the verdict as an outside input; the exhibited run supplies the verdict of the evaluator's own structural equality. NOT in the fragment: a `=>` branch whose condition binds (out-of-line failure handler), spreads, label access, strings/binaries, structured patterns, function values anywhere but as the value of a binding step, capturing or nilary functions, tail calls, builtins, imports, processes; not mirrored: the compiler's dropping of the steps after a statically-nil step. NOT a theorem: that the Rust compiler's bytecode computes eval for the whole language (no model of compiler.rs) — `compile_correct` is kept as a comment in props/C02.v. That link is validated by differential execution: the real parser's AST is evaluated by the extracted evaluator and compared with real compile+run on test-suite sources (with the suite's expected strings as a third oracle), the spec's examples with their documented results, corpus probes (must-pass) and type-directed generated programs accepted by the real compiler; the model of simplify.rs is compared with the real normalize_blocks on the same sources and std/*.qv. " + READINGS,
     design_ref="§5 C02",
-    note="Trusted: Coq kernel, extraction (ExtrOcamlBasic), OCaml driver (AST reader, atom interning), Rust harness qv_ast (AST dumper, --norm) and qvh::eval_source, Python differ/generator/shrinker. Out of the modelled fragment (reported as `unsupported`, counted): processes/select/spawn/send/self, resources/IO, refs, builtins other than integer add/subtract/multiply/divide/modulo/gcd/compare/abs/sqrt and binary concat/length, function/process/module types and type spreads inside type patterns, `^n` (n>0), context-inferred parameters of `#{..}` literals. Where static typing decides what the spec words dynamically (a variable whose type mixes callables and non-callables, type variables) the generator avoids the construct. The generator also avoids the known typing defects F13/F27 (C20/C01). Findings this check produced (F53c02, F64c02, F75, F76) or routed (F73) are repaired in /repo; their reproducers are must-pass regression probes in corpus/c02_probes.txt; signature routing stays table-driven by known_findings.json. LangSimplify.v models normalize_blocks for the compiler's options only (the formatter's `keep` closure and `group_consequences` are C17's, over Simplify.v).",
+    note="Trusted: Coq kernel, extraction (ExtrOcamlBasic), OCaml driver (AST reader, atom interning), Rust harness qv_ast (AST dumper, --norm) and qvh::eval_source, Python differ/generator/shrinker. Out of the modelled fragment (reported as `unsupported`, counted): processes/select/spawn/send/self, resources/IO, refs, builtins other than integer add/subtract/multiply/divide/modulo/gcd/compare/abs/sqrt and binary concat/length, function/process/module types and type spreads inside type patterns, `^n` (n>0), context-inferred parameters of `#{..}` literals. Where static typing decides what the spec words dynamically (a variable whose type mixes callables and non-callables, type variables) the generator avoids the construct. The generator also avoids the known typing defects F13/F27 (C20/C01). Findings this check produced (F53c02, F64c02, F75, F76) or routed (F73) are repaired in /repo; their reproducers are must-pass regression probes in corpus/c02_probes.txt; F93 (a name-inheriting spread `~[...]` / `x[...]` over a source whose static type is a union yields an unnamed tuple; spec l.272/l.286 say the name is preserved) was found by the thorough tier: reproducers in corpus/c02_known.txt, narrow signature sig_F93, the free generator gives name-inheriting spreads of named tuples a plain-tuple-typed source and exercises explicitly named spreads over union-typed sources instead; signature routing stays table-driven by known_findings.json. LangSimplify.v models normalize_blocks for the compiler's options only (the formatter's `keep` closure and `group_consequences` are C17's, over Simplify.v).",
     technique="Coq proof (laws of the reference semantics; normalisation preserves it) + differential execution of the extracted evaluator on the real parser's AST against the real compiler+VM, 3-way with the test-suite's expected values; model-vs-code correspondence of the normalisation",
 )
 
@@ -310,7 +310,18 @@ def sig_F75(ast_line, real, ev, st=None):
     return bool(hit)
 
 
-SIGNATURES = [("F64c02", sig_F64c02), ("F75", sig_F75), ("F76", sig_F76), ("F53c02", sig_F53c02), ("F73", sig_F73)]
+_TNAME = re.compile(r"\(t [^ ()]+ ")
+
+
+def sig_F93(ast_line, real, ev):
+    """a name-inheriting tuple (`~[...]`, `x[...]`) occurs AND the two values differ ONLY in tuple
+    names (the real compiler takes the inherited name from the STATIC type of the spread's source:
+    none when that type is a union; spec l.272/l.286 say the name is preserved)"""
+    return ("(Tuple Inherit" in ast_line and real != ev and real.startswith("(ok") and ev.startswith("(ok")
+            and _TNAME.sub("(t - ", real) == _TNAME.sub("(t - ", ev))
+
+
+SIGNATURES = [("F93", sig_F93), ("F64c02", sig_F64c02), ("F75", sig_F75), ("F76", sig_F76), ("F53c02", sig_F53c02), ("F73", sig_F73)]
 
 
 def known_finding_of(ast_line, real, ev, st=None):
